@@ -74,6 +74,15 @@ def floatToks (s : String) : Option (List String) := allSome ((splitWs s.toList)
 def rj (w : Nat) (s : String) : String := String.ofList (List.replicate (w - s.length) ' ') ++ s
 def lj (w : Nat) (s : String) : String := s ++ String.ofList (List.replicate (w - s.length) ' ')
 def rjn (w : Nat) (n : Nat) : String := rj w (toString n)
+/-- a token right-justified in a Fortran field of width `w` -/
+def rjC (w : Nat) (cs : Cs) : Cs := List.replicate (w - cs.length) ' ' ++ cs
+
+/-- a Fortran list write: the tokens in consecutive fields of width `w` -/
+def fieldsLine (w : Nat) (toks : List Cs) : Cs := (toks.map (rjC w)).flatten
+
+/-- the text of a data line (`8F10.5`, `6D10.2`, `8E9.2`, …) -/
+def dataLine (w : Nat) (xs : List String) : String := String.ofList (fieldsLine w (xs.map String.toList))
+
 def dashes (n : Nat) : String := String.ofList (List.replicate n '-')
 def cat (l : List String) : String := l.foldl (· ++ ·) ""
 
@@ -95,7 +104,7 @@ def text2x : K2x String → String
   | .hy => dashes 79
   | .dims neb ndt tref => " " ++ rjn 4 neb ++ " " ++ rjn 4 ndt ++ " /TREF=" ++ rj 9 tref
   | .tdims ntt eref dref => " " ++ rjn 4 ntt ++ " /EREF=" ++ rj 9 eref ++ " /NREF=" ++ rj 9 dref
-  | .vals xs => cat (xs.map (rj 10))
+  | .vals xs => dataLine 10 xs
 
 /-! ## ADF12 -/
 
@@ -110,7 +119,7 @@ def lex12 : Lex12 String String where
 def text12 : K12 String → String
   | .count n => rjn 5 n
   | .hdr up lo => lj 38 " C+6   + H(1S)     /RECVR=C+6 /N=" ++ rjn 2 up ++ "-" ++ rjn 2 lo ++ " /EMISSIVITY"
-  | .vals xs => cat (xs.map (rj 10))
+  | .vals xs => dataLine 10 xs
   | .ints xs => cat (xs.map (rjn 10))
 
 /-! ## ADF11 -/
@@ -192,7 +201,7 @@ def text11 : K11 String String → String
   | .dashes nC (some z) => String.ofList (List.replicate nC 'C') ++ dashes (20 - nC)
       ++ "/ IPRT= 1  / IGRD= 1  /--------/ Z1=" ++ rjn 2 z ++ "   / DATE= 17/01/97"
   | .dashes nC none => String.ofList (List.replicate nC 'C') ++ dashes (80 - nC)
-  | .nums xs => cat (xs.map (rj 10))
+  | .nums xs => dataLine 10 xs
   | .cOnly => "C"
   | .text => "C  EFFECTIVE COEFFICIENTS, GENERATED FOR TESTING; IGRD= 2 Z1 = X"
 
@@ -456,7 +465,7 @@ def text15 : K15 String String String → String
   | .fileHeader n => rjn 5 n ++ "    /C 2 PHOTON EMISSIVITY COEFFICIENTS/"
   | .blockHdr wl nN nT typ isel => rj 8 wl ++ " A" ++ rjn 5 nN ++ rjn 5 nT ++ " /FILMEM = bottom  /TYPE = " ++ typName typ
       ++ " /INDM = T/ISEL = " ++ rjn 4 isel
-  | .data xs => cat (xs.map (rj 9))
+  | .data xs => dataLine 9 xs
   | .comment => "C"
   | .cfgHeader => "C  Configuration       (2S+1)L(w-1/2)    Energy (cm**-1)"
   | .cfgLine id conf spin l j => "C" ++ rjn 6 id ++ "  " ++ lj 18 (conf.toUpper ++ " ") ++ "(" ++ spin ++ ")" ++ toString l
